@@ -112,6 +112,15 @@ func TestVerifC03Sampled(t *testing.T) {
 		st.Class("repo/version="+r.Desc.Version, "repo/compression="+r.Desc.Compression, fmt.Sprintf("repo/dup=%v", r.Desc.Dup),
 			fmt.Sprintf("repo/two_keys=%v", r.Desc.TwoKeys), fmt.Sprintf("repo/multiblob=%v", r.Desc.MultiBlob), fmt.Sprintf("repo/snapshots=%d", r.Desc.Snapshots))
 		digest := r.e.store.Digest()[:16]
+		// deterministic boundary truncations on every generated repository: every depended
+		// file cut to 0 bytes, the first file of each type also to 1 and len-1 bytes
+		for i, b := range r.boundaryMuts(false) {
+			res := r.evalSite([]vMutC03{b.Mut}, []int{i % len(r.snaps)})
+			st.Case(digest+vJSON(b.Mut), append(res.Classes, "op=trunc", "site="+b.Mut.Where, "bnd="+b.Kind, "bnd/"+b.Kind+"="+vTypeNameC03(vFileTypeC03(b.Mut.Type)))...)
+			if res.Violation != "" {
+				t.Fatalf("C03 violated (boundary truncation %s): %s\nchange: %s\nrepository: %s", b.Kind, res.Violation, vJSON(b.Mut), vJSON(r.Desc))
+			}
+		}
 		for i := 0; i < sitesPerRepo; i++ {
 			var muts []vMutC03
 			n := 1
@@ -208,7 +217,7 @@ func TestVerifC03Exhaustive(t *testing.T) {
 	}
 
 	// quick: every stride-th site (phase from the seed); thorough: every site
-	stride := verifkit.Scale(211, 1)
+	stride := verifkit.Scale(307, 1)
 	phase := int(verifkit.Seed() % int64(stride))
 	shard, shards := verifkit.Shard(), verifkit.Shards()
 	for _, name := range []string{"v1", "v2"} {
@@ -243,6 +252,20 @@ func TestVerifC03Exhaustive(t *testing.T) {
 				p := verifkit.SaveReplay("C03", fmt.Sprintf("exhaustive-%s-%d-%s-%d", name, rank, m.Op, m.Off), vExSiteC03{Repo: name, Rank: rank, Mut: m})
 				r.Close()
 				t.Fatalf("C03 violated: %s\nchange: %s (file rank %d of %s)\nreplay: %s", res.Violation, vJSON(m), rank, name, p)
+			}
+		}
+		// deterministic boundary truncations (both tiers): every depended file cut to 0, 1, len-1
+		// bytes and at every region boundary, partitioned over the shards
+		for i, b := range r.boundaryMuts(true) {
+			if i%shards != shard {
+				continue
+			}
+			res := r.evalSite([]vMutC03{b.Mut}, nil)
+			st.Case(fmt.Sprintf("%s/bnd/%d/%d", name, b.Rank, b.Mut.Off), append(res.Classes, "op=trunc", "site="+b.Mut.Where, "bnd="+b.Kind, "bnd/"+b.Kind+"="+vTypeNameC03(vFileTypeC03(b.Mut.Type)), "exhaustive/"+name)...)
+			if res.Violation != "" {
+				p := verifkit.SaveReplay("C03", fmt.Sprintf("exhaustive-%s-%d-bnd-%d", name, b.Rank, b.Mut.Off), vExSiteC03{Repo: name, Rank: b.Rank, Mut: b.Mut})
+				r.Close()
+				t.Fatalf("C03 violated (boundary truncation %s): %s\nchange: %s (file rank %d of %s)\nreplay: %s", b.Kind, res.Violation, vJSON(b.Mut), b.Rank, name, p)
 			}
 		}
 		for rank, k := range r.files {
